@@ -55,6 +55,8 @@ type c15bWorld struct {
 	crlf      bool
 	ops       []string
 	bad       bool
+	consPm    int
+	consMs    int
 	armedOp   string
 	armedFile *tailFile
 	closed    bool
@@ -63,6 +65,19 @@ type c15bWorld struct {
 
 func (w *c15bWorld) mode() string {
 	return fmt.Sprintf("TailFilesToChan poll=%v reopen=%v tail=%v batch=%d files=%d", w.poll, w.reopen, w.tail, w.batchSize, len(w.files))
+}
+
+// allow is the fake time the run's slow consumer may legitimately need on top of every liveness bound: it holds
+// every batch for up to consMs, and a full batch channel holds up the readers behind it.
+func (w *c15bWorld) allow() time.Duration {
+	if w.consPm == 0 {
+		return 0
+	}
+	lines := 8
+	for _, tf := range w.files {
+		lines += bytes.Count(tf.expected, []byte{'\n'}) + 1
+	}
+	return time.Duration(lines) * time.Duration(w.consMs) * time.Millisecond
 }
 
 func (w *c15bWorld) opf(f string, a ...any) {
@@ -164,8 +179,9 @@ func (w *c15bWorld) consumer(b *batchers.Batcher) {
 	for batch := range b.BatchChan() {
 		simrt.Yield("world:consumer-recv")
 		w.onBatch(batch)
-		if t.FBool(1, 6) {
-			time.Sleep(time.Duration(1+t.F(300)) * time.Millisecond)
+		// back-pressure profile of the run: an attentive, a distracted or a very slow consumer
+		if t.F(1000) < w.consPm {
+			time.Sleep(time.Duration(1+t.F(w.consMs)) * time.Millisecond)
 			simrt.Yield("world:consumer-latency")
 		}
 	}
@@ -229,6 +245,7 @@ func c15BatchWorld(rc *RunCtx) {
 	w.tail = t.WBool(1, 3)
 	w.crlf = t.WBool(1, 3)
 	w.batchSize = []int{1, 2, 3, 5, 1000}[t.W(5)]
+	w.consPm, w.consMs = []int{0, 160, 500, 1000}[t.F(4)], []int{40, 300, 1200}[t.F(3)]
 	buffer := 1 + t.W(3)
 	nFiles := 1 + t.W(3)
 	nOps := t.WRange(1, 14)
@@ -365,7 +382,7 @@ func c15BatchWorld(rc *RunCtx) {
 				time.Sleep(d)
 				simrt.Yield("world:pause")
 			case k == 7 && tf.exists && !tf.streamOver:
-				if !w.waitUntil(2*c15Bound, func() bool { return w.drained(tf) || w.closed }) {
+				if !w.waitUntil(2*c15Bound+w.allow(), func() bool { return w.drained(tf) || w.closed }) {
 					p, _ := w.pos(tf.path)
 					rc.Violate("liveness-before-remove", "%s: %s: the follow reader read %d of %d bytes %v after the last append (file in place)\nhistory:%s", w.mode(), tf.path, p, tf.size, 2*c15Bound, w.history())
 					w.bad = true
@@ -379,6 +396,16 @@ func c15BatchWorld(rc *RunCtx) {
 				if !w.reopen {
 					// from here on the stream may end (and deliver an unterminated last line)
 					tf.streamOver = true
+				}
+				if w.reopen && t.WBool(1, 3) {
+					tf.incarn++
+					if err := os.Rename(tf.path, fmt.Sprintf("%s.%d", tf.path, tf.incarn)); err != nil {
+						panic(err)
+					}
+					w.opf("%s: rename away (after the reader read all %d bytes)", tf.path, tf.size)
+					fsnotify.SimNotify(tf.path, fsnotify.Rename)
+					rc.Fired["rotated-by-rename"]++
+					break
 				}
 				s.RegisterRemove(tf.path)
 				if err := os.Remove(tf.path); err != nil {
@@ -419,7 +446,7 @@ func c15BatchWorld(rc *RunCtx) {
 					if t.WBool(3, 4) {
 						w.appendTo(tf, w.chunk(1+t.W(int(prev)-1)))
 					}
-					if !w.waitUntil(2*c15Bound, func() bool { _, o := w.pos(tf.path); return o > tf.opensAtNew }) {
+					if !w.waitUntil(2*c15Bound+w.allow(), func() bool { _, o := w.pos(tf.path); return o > tf.opensAtNew }) {
 						rc.Violate("liveness-reopen", "%s: %s: the re-created file (shorter than the %d bytes read before) was not re-opened within %v\nhistory:%s", w.mode(), tf.path, prev, 2*c15Bound, w.history())
 						w.bad = true
 					}
@@ -440,7 +467,7 @@ func c15BatchWorld(rc *RunCtx) {
 		}
 		pending := func(tf *tailFile) int { return len(completeLines(tf.expected)) - len(tf.lines) }
 		if allOver {
-			if !w.waitUntil(c15Bound, func() bool { return w.closed }) {
+			if !w.waitUntil(c15Bound+w.allow(), func() bool { return w.closed }) {
 				rc.Violate("liveness-close", "%s: every followed file was removed after its data had been read, but the batch channel was not closed within %v\nhistory:%s", w.mode(), c15Bound, w.history())
 				return
 			}
@@ -452,7 +479,7 @@ func c15BatchWorld(rc *RunCtx) {
 			}
 		} else {
 			// quiescence: everything read, fewer than batchSize complete lines waiting for the next flush
-			ok := w.waitUntil(c15Bound, func() bool {
+			ok := w.waitUntil(c15Bound+w.allow(), func() bool {
 				for _, tf := range live {
 					if tf.streamOver || !tf.exists {
 						continue
@@ -477,7 +504,9 @@ func c15BatchWorld(rc *RunCtx) {
 				}
 			}
 			// the time flush: after 300ms of silence one more line flushes everything that was waiting
-			time.Sleep(300 * time.Millisecond)
+			// (the batcher stamps a flush when its send has completed: behind a slow consumer that is later than the moment
+			// the lines were read, so the silence is counted from the time the consumer can have drained everything)
+			time.Sleep(300*time.Millisecond + w.allow())
 			simrt.Yield("world:silence")
 			marked := false
 			for _, tf := range live {
@@ -488,7 +517,7 @@ func c15BatchWorld(rc *RunCtx) {
 				marked = true
 			}
 			if marked {
-				ok := w.waitUntil(c15Bound, func() bool {
+				ok := w.waitUntil(c15Bound+w.allow(), func() bool {
 					for _, tf := range live {
 						if tf.streamOver || !tf.exists {
 							continue
@@ -536,7 +565,7 @@ func c15BatchWorld(rc *RunCtx) {
 		if allOver {
 			wantActive = 0
 		}
-		if !w.waitUntil(c15Bound, func() bool { return batcher.ActiveFileCount() == wantActive }) {
+		if !w.waitUntil(c15Bound+w.allow(), func() bool { return batcher.ActiveFileCount() == wantActive }) {
 			rc.Violate("liveness-eof", "%s: ActiveFileCount() = %d %v after the last operation, expected %d (files removed under plain follow must end their stream; others stay active)\nhistory:%s", w.mode(), batcher.ActiveFileCount(), c15Bound, wantActive, w.history())
 		}
 	})
